@@ -1298,7 +1298,6 @@ func (req *Request) Reset() {
 
 func (req *Request) resetSkipHeader() {
 	req.ResetBody()
-	req.bodyStreamUnread = false
 	req.uri.Reset()
 	req.parsedURI = false
 	req.uriParseErr = nil
